@@ -28,6 +28,9 @@ TRUSTED = [
     'scipy RegularGridInterpolator (library hypothesis: bilinear on the cell whose lower node is the largest node <= x, NaN if any '
     'corner is NaN; validated on every run), numpy mean/std (population variance), astropy.io.fits section reads, multiprocessing fork',
     'stripe width width_y: evaluated by Python from the source text (float arithmetic); the theorems hold for every width >= 1',
+    'command line glue AegeanTools/CLI/BANE.py (argument parsing, defaults, option -> keyword mapping, argument order, output '
+    'naming) is not modelled in Coq; it is tied on every run by tools/harness/cli_cases.py: BANE command lines (non-square --grid / --box, --cores, --stripes, --slice, --nomask, --compress, --out, --noclobber) run in subprocesses and '
+    'the files they write equal, bit for bit (tables apart from uuids), those of the library call that --help and the docstrings promise',
 ]
 ASSUMPTIONS = [
     'real arithmetic: the theorems are about the model over R; binary64 / float32 rounding of the implementation is outside (the '
@@ -632,6 +635,9 @@ def run(ctx, model_ok=True):
             ctx.known_lines.append(t)
     else:
         ctx.notes.append('single-row / single-column images no longer give all-NaN maps')
+    # ---- command line tie: the argument glue of AegeanTools/CLI vs the library call that --help promises
+    from harness import cli_cases
+    cli_cases.hook(ctx, cli_cases.bane_cli, 'BANE')
 
 
 def gauss_validation(ctx):
@@ -712,6 +718,9 @@ def replay(ctx, obj):
         for b in obj.get('broken', []):
             print('  ', b.get('what'), str(b.get('detail', b.get('case', '')))[:400])
         return 1
+    if fi.get('kind') == 'cli':
+        from harness import cli_cases
+        return cli_cases.replay_cli(ctx, fi)
     kind = fi.get('kind')
     if kind == 'sigmaclip':
         from AegeanTools import BANE
